@@ -193,11 +193,15 @@ def unknown_record_strategy(numbers: List[int]):
     )
     ln = st.tuples(num, st.just(2), st.one_of(st.sampled_from([b"", b"\x00", b"\xff" * 3]), st.binary(max_size=10), nested,
                                               st.binary(min_size=128, max_size=140)))
-    return st.one_of(varint, f64, f32, ln).map(lambda t: {"n": t[0], "wt": t[1], "p": t[2]})
+    # non-minimal (padded) varints in the tag (<= 5 bytes: it is a 32-bit quantity), the length and the value: a
+    # record that is kept "byte for byte" must come back exactly as it arrived
+    pads = st.tuples(st.sampled_from([0, 0, 0, 3, 5]), st.sampled_from([0, 0, 0, 2, 5]), st.sampled_from([0, 0, 0, 10]))
+    return st.tuples(st.one_of(varint, f64, f32, ln), pads).map(
+        lambda t: {"n": t[0][0], "wt": t[0][1], "p": t[0][2], **({"tp": t[1][0], "lp": t[1][1], "vp": t[1][2]} if any(t[1]) else {})})
 
 
 def unknown_to_record(u: Dict[str, Any]) -> wire.Record:
-    return wire.make_record(u["n"], u["wt"], u["p"])
+    return wire.make_record(u["n"], u["wt"], u["p"], tag_pad=u.get("tp", 0), len_pad=u.get("lp", 0), val_pad=u.get("vp", 0))
 
 
 def interleave(known: List[wire.Record], unknown: List[wire.Record], positions: List[int]) -> List[wire.Record]:
